@@ -191,7 +191,8 @@ class TypeObject:
         self, self_val: Value, other_val: Value, ctx: CanAssignContext
     ) -> CanAssign:
         bounds_maps = []
-        for member in self.protocol_members:
+        # Sorted so that the member named in an error does not depend on the hash seed.
+        for member in sorted(self.protocol_members):
             expected = ctx.get_attribute_from_value(
                 self_val, member, prefer_typeshed=True
             )
